@@ -1,12 +1,173 @@
 """C12 SM9 pairing is the bilinear, non-degenerate R-ate pairing of GM/T 0044.1"""
-from .. import rules_k as K, paramalg as pa
+import re
+from .. import rules_k as K, rules_i as I, rules_g as G, frame as FR, paramalg as pa
+from ..prov import Prov, norm, last, const_int
+from ..builder import Canon
+
+
+def line_fn_shape(cx, fn):
+    """(pre stores, lw stores, returned point) of a chord-line evaluation function, canonical with commutative fp_mul/fp_add"""
+    F = cx.F
+    P = Prov(fn, F, cut_loops=True); cn = Canon(fn, P); cn.commut = {'fp_mul', 'fp_add'}; cn.bare = {'pre', 'lw'}
+    def stores(name, deref):
+        out = []
+        for b, i, st in fn.stmts():
+            if st['k'] != 'assign':
+                continue
+            lp = st['lhs']
+            if fn.locals[lp['l']].get('name') != name:
+                continue
+            pr = lp['p'][1:] if deref and lp['p'] and lp['p'][0] == 'deref' else lp['p']
+            if len(pr) == 1 and isinstance(pr[0], dict) and 'idx' in pr[0]:
+                out.append((cn.c(norm(P.local(pr[0]['idx'], b, i))), I.shorten_vars(cn.c(norm(P.rvalue(st['rv'], b, i, 0)))).replace('$pre[', 'pre[')))
+        return out
+    ret = [I.shorten_vars(cn.c(norm(P.rvalue(st['rv'], b, i, 0)))).replace('$pre[', 'pre[') for b, i, st in fn.stmts() if st['k'] == 'assign' and st['lhs']['l'] == 0 and not st['lhs']['p']]
+    return stores('pre', False), stores('lw', True), ret
 
 
 def run(cx):
-    cx.not_decided.append('bilinearity, non-degeneracy and equality with a textbook pairing (functional)')
+    cx.not_decided.append('bilinearity, non-degeneracy and equality with a textbook pairing (functional); the line-function formulas themselves are compared only between the two sibling implementations, not with an independent derivation')
+    F = cx.F
     s = pa.sm9()
     names = ['SM9_P', 'SM9_P_MINUS_TWO', 'SM9_P_PRIME', 'SM9_MODP_2E512', 'SM9_MODP_MONT_ONE', 'SM9_MODP_MONT_FIVE',
-             'SM9_MONT_ALPHA1', 'SM9_MONT_ALPHA2', 'SM9_MONT_ALPHA3', 'SM9_MONT_ALPHA4', 'SM9_MONT_ALPHA5']
+             'SM9_MONT_ALPHA1', 'SM9_MONT_ALPHA2', 'SM9_MONT_ALPHA3', 'SM9_MONT_ALPHA4', 'SM9_MONT_ALPHA5', 'SM9_N_MINUS_ONE']
     K.k_ints(cx, 'K-SM9-FROB', 'gm_sm9', {k: s.consts[k] for k in names})
     for n in ('SM9_MONT_BETA', 'SM9_POINT_MONT_P1', 'SM9_TWIST_POINT_MONT_P2'):
         K.k_struct(cx, 'K-SM9-GEN', 'gm_sm9', n, s.struct_consts[n])
+    # ---------------------------------------------------------------- Miller loop
+    fn = cx.fn('gm_sm9::points::sm9_u256_pairing', 'K-SM9-MILLER')
+    if fn is not None:
+        P = Prov(fn, F, cut_loops=True); cn = Canon(fn, P)
+        lits = []
+        for b in FR.calls_of(fn, 'chars'):
+            a = FR.arg_canon(fn, P, cn, b, 0)
+            if a.startswith('bytes:'):
+                txt = bytes.fromhex(a[6:])
+                if len(txt) >= 32 and set(txt) <= set(b'012'):
+                    lits.append(txt.decode())
+        ok = False
+        val = None
+        if len(lits) == 1:
+            val = 1
+            for ch in lits[0]:
+                val = 2 * val + {'0': 0, '1': 1, '2': -1}[ch]
+            ok = val == s.miller
+        cx.add('K-SM9-MILLER', 'digits', ok, 'signed-digit string "1"+abits (2 = -1) evaluates to 6t+2 = %s (got %s, %d literal(s))' % (hex(s.miller), hex(val) if val else None, len(lits)), fn.loc())
+        lp = I.find_loop(fn, P, cn, 'Range::Range{0, len(collect(chars(')
+        if lp is None:
+            cx.violate('I-MILLER', 'loop', 'the digit loop was not found', fn.loc())
+        else:
+            hdr, loop, latches = lp
+            from ..builder import select_conds
+            seq = []
+            dom = fn.dominators()
+            for b in sorted(loop, key=lambda x: (len(dom.get(x, ())), x)):
+                t = fn.blocks[b]['term']
+                if t['k'] == 'call' and t['fn']['k'] == 'def' and t['fn']['local']:
+                    conds = [c for c in select_conds(fn, P, b, cn) if c.startswith(('Eq(index(', 'Ne(index('))]
+                    digit = []
+                    for c in conds:
+                        m = re.match(r'(Eq|Ne)\(index\(.*\), (\d+)\)=(\w+)$', c)
+                        if m:
+                            truth = (m.group(3) != '0') if m.group(1) == 'Eq' else (m.group(3) == '0')
+                            digit.append(('=' if truth else '!=') + chr(int(m.group(2))))
+                    args = [I.shorten_vars(cn.c(a)) for a in G.call_args(fn, P, b)]
+                    key = last(t['fn']['name'])
+                    if key == 'sm9_u256_eval_g_line':
+                        key += '(%s)' % args[3]
+                    seq.append((key, tuple(digit)))
+            want = [('fp_sqr', ()), ('sm9_u256_eval_g_tangent', ()), ('fp_line_mul', ()),
+                    ('sm9_u256_eval_g_line($q)', ('=1',)), ('fp_line_mul', ('=1',)),
+                    ('sm9_u256_eval_g_line(G2.point_neg($q))', ('!=1', '=2')), ('fp_line_mul', ('!=1', '=2'))]
+            cx.add('I-MILLER', 'loop-body', seq == want, 'per digit: f = f^2 * l_{T,T}(P); digit 1: f *= l_{T,Q}(P); digit 2 (-1): f *= l_{T,-Q}(P): %s' % seq, fn.loc())
+        tail = []
+        if lp:
+            for b, t in fn.calls():
+                if b not in lp[1] and lp[0] in fn.dominators().get(b, ()) and t['fn']['k'] == 'def' and t['fn']['local']:
+                    a = [I.shorten_vars(cn.c(x)) for x in G.call_args(fn, P, b)]
+                    k = last(t['fn']['name'])
+                    tail.append(k + ('(%s)' % a[2] if k == 'sm9_u256_eval_g_line_no_pre' else '(%s)' % a[0] if k in ('point_pi1', 'point_neg_pi2') else ''))
+        want = ['point_pi1($q)', 'point_neg_pi2($q)', 'sm9_u256_eval_g_line_no_pre(point_pi1($q))', 'fp_line_mul', 'sm9_u256_eval_g_line_no_pre(point_neg_pi2($q))', 'fp_line_mul', 'final_exponent']
+        cx.add('I-MILLER', 'frobenius-steps', sorted(tail[:2]) + tail[2:] == sorted(want[:2]) + want[2:], 'after the loop: f *= l_{T,pi(Q)}(P); f *= l_{T,-pi^2(Q)}(P); final exponentiation: %s' % tail, fn.loc())
+        pre = [(a, I.shorten_vars(b)) for a, b in I.stores(fn, F, 'pre')]
+        want = [('0', 'fp_sqr($q.y)'), ('4', 'fp_mul($q.x, $q.z)'), ('4', 'fp_double(pre[4])'), ('1', 'fp_sqr($q.z)'), ('1', 'fp_mul($q.z, pre[1])'),
+                ('2', 'fp_mul_fp(pre[1], affy($p))'), ('2', 'fp_double(pre[2])'), ('3', 'fp_mul_fp(pre[1], affx($p))'), ('3', 'fp_double(pre[3])'), ('3', 'fp_neg(pre[3])')]
+        cx.add('I-MILLER', 'pre', pre == want, 'precomputed values for the chord lines through Q: yQ^2, 2 xQ zQ, zQ^3, 2 zQ^3 yP, -2 zQ^3 xP', fn.loc(), {'got': pre})
+    # ---------------------------------------------------------------- S-LINE: sibling line functions agree
+    f1 = cx.fn('gm_sm9::points::sm9_u256_eval_g_line', 'S-LINE')
+    f2 = cx.fn('gm_sm9::points::sm9_u256_eval_g_line_no_pre', 'S-LINE')
+    if f1 is not None and f2 is not None:
+        p1, l1, r1 = line_fn_shape(cx, f1)
+        p2, l2, r2 = line_fn_shape(cx, f2)
+        cx.add('S-LINE', 'lines', l1 == l2 and bool(l1), 'both chord-line evaluators store the same three line coefficients (given the same pre values): %d stores' % len(l1), f2.loc(), {'with_pre': l1, 'no_pre': l2})
+        cx.add('S-LINE', 'point', r1 == r2 and bool(r1), 'both return the same updated point T + Q', f2.loc())
+        want = [('0', 'fp_sqr($t.y)'), ('4', 'fp_mul($t.x, $t.z)'), ('4', 'fp_double(pre[4])'), ('1', 'fp_sqr($t.z)'), ('1', 'fp_mul($t.z, pre[1])'),
+                ('2', 'fp_mul_fp(pre[1], $q.y)'), ('2', 'fp_double(pre[2])'), ('3', 'fp_mul_fp(pre[1], $q.x)'), ('3', 'fp_double(pre[3])'), ('3', 'fp_neg(pre[3])')]
+        cx.add('S-LINE', 'pre', p2 == want, 'the no-pre variant computes the five pre values exactly as sm9_u256_pairing does (with its t in the role of Q and q in the role of affine P)', f2.loc(), {'got': p2})
+    # ---------------------------------------------------------------- Frobenius maps and final exponentiation
+    def ret1(q):
+        f = cx.fn(q, 'K-SM9-FROB')
+        if f is None:
+            return None, None
+        r = [I.shorten_vars(v) for _, v in I.returns(f, F, True)]
+        return f, r
+    f, r = ret1('<impl fields::fp12::Fp12>::fp12_frobenius2')
+    if f:
+        cx.add('K-SM9-FROB', 'frobenius2/use', r == ['Fp12::Fp12{conjugate($self.c0), fp_mul_fp(conjugate($self.c1), SM9_MONT_ALPHA2), fp_mul_fp(conjugate($self.c2), SM9_MONT_ALPHA4)}'],
+               'p^2-Frobenius multiplies the w and w^2 coefficients by alpha^2 and alpha^4 (alpha = (-2)^((p-1)/12))', f.loc(), {'got': r})
+    f, r = ret1('<impl fields::fp12::Fp12>::fp12_frobenius6')
+    if f:
+        cx.add('K-SM9-FROB', 'frobenius6/use', r == ['Fp12::Fp12{conjugate($self.c0), fp_neg(conjugate($self.c1)), conjugate($self.c2)}'], 'p^6-Frobenius = conjugation with sign change on the w coefficient', f.loc())
+    # component-wise stores in frobenius / frobenius3
+    def comp_stores(q):
+        f = cx.fn(q, 'K-SM9-FROB')
+        if f is None:
+            return None, None
+        P = Prov(f, F, cut_loops=True); cn = Canon(f, P)
+        out = {}
+        for b, i, st in f.stmts():
+            if st['k'] == 'assign' and st['lhs']['p'] and f.locals[st['lhs']['l']].get('name') in ('ra', 'rb', 'rc'):
+                key = f.locals[st['lhs']['l']]['name'] + '.' + '.'.join(p['name'] for p in st['lhs']['p'] if isinstance(p, dict) and 'f' in p)
+                out.setdefault(key, []).append(I.shorten_vars(cn.c(norm(P.rvalue(st['rv'], b, i, 0)))))
+        return f, out
+    f, st = comp_stores('<impl fields::fp12::Fp12>::fp12_frobenius')
+    if f:
+        # coefficient of w^k (k = 0,3 | 1,4 | 2,5 for c0.c0,c0.c1 | c1.c0,c1.c1 | c2.c0,c2.c1) is conjugated and multiplied by alpha^k
+        want = {}
+        for comp, src, ks in (('ra', 'c0', (0, 3)), ('rb', 'c1', (1, 4)), ('rc', 'c2', (2, 5))):
+            for sub, k in zip(('c0', 'c1'), ks):
+                key = '%s.%s' % (comp, sub)
+                want[key] = ['conjugate($self.%s.%s)' % (src, sub)] + (['fp_mul_fp(%s.%s, SM9_MONT_ALPHA%d)' % (comp, sub, k)] if k else [])
+        cx.add('K-SM9-FROB', 'frobenius/use', st == want, 'p-Frobenius: the coefficient of w^k is conjugated and multiplied by alpha^k, k = 0..5 (derived from w^12 = -2)', f.loc(), {'got': st})
+    f, st = comp_stores('<impl fields::fp12::Fp12>::fp12_frobenius3')
+    if f:
+        want = {'ra.c0': ['conjugate($self.c0.c0)'], 'ra.c1': ['conjugate($self.c0.c1)', 'fp_mul(ra.c1, SM9_MONT_BETA)', 'fp_neg(ra.c1)'],
+                'rb.c0': ['conjugate($self.c1.c0)', 'fp_mul(rb.c0, SM9_MONT_BETA)'], 'rb.c1': ['conjugate($self.c1.c1)'],
+                'rc.c0': ['conjugate($self.c2.c0)', 'fp_neg(rc.c0)'], 'rc.c1': ['conjugate($self.c2.c1)', 'fp_mul(rc.c1, SM9_MONT_BETA)']}
+        cx.add('K-SM9-FROB', 'frobenius3/use', st == want, 'p^3-Frobenius: coefficient of w^k times alpha^(3k) = beta^k with beta = alpha^3, beta^2 = -1 ... (use sites of SM9_MONT_BETA and the sign changes)', f.loc(), {'got': st})
+        # numeric relation behind the template: alpha^6 = -1 and alpha^9 = -alpha^3 (mod p)
+        a = s.alpha[1]
+        cx.add('K-SM9-FROB', 'frobenius3/algebra', pow(a, 6, s.p) == s.p - 1 and pow(a, 12, s.p) == 1, 'alpha^6 = -1 and alpha^12 = 1 mod p, so alpha^(3k) in {1, beta, -1, -beta}', '')
+    f, r = ret1('<impl fields::fp12::Fp12>::final_exponent')
+    if f:
+        easy = 'fp_mul(fp12_frobenius6($self), fp_inv($self))'
+        cx.add('K-SM9-FEXP', 'easy-part', r == ['final_exponent_hard_part(fp_mul(%s, fp12_frobenius2(%s)))' % (easy, easy)], 'easy part f^((p^6-1)(p^2+1)) then the hard part', f.loc(), {'got': r})
+    f, r = ret1('<impl fields::fp12::Fp12>::final_exponent_hard_part')
+    if f:
+        lits = sorted(set(int(x, 16) for x in re.findall(r'arr:(0x[0-9a-f]+)', r[0]))) if r else []
+        cx.add('K-SM9-FEXP', 'hard-part/constants', lits == sorted([s.a3, s.a2, 9]), 'hard-part exponents are 6t+5, 6t^2+1 and 9: %s' % [hex(x) for x in lits], f.loc())
+        A3 = 'fp_inv(pow($self, arr:%s))' % hex(s.a3)
+        T1 = 'fp_mul(%s, fp12_frobenius(%s))' % (A3, A3)
+        want = 'fp_mul(fp12_frobenius3($self), fp_mul(pow(fp_mul(fp12_frobenius2($self), fp_mul(fp_sqr(fp12_frobenius($self)), %s)), arr:%s), fp_mul(fp_mul(fp_mul(%s, %s), pow(fp_mul(fp12_frobenius($self), $self), arr:0x9)), fp_sqr(fp_sqr($self)))))' % (T1, hex(s.a2), A3, T1)
+        cx.add('K-SM9-FEXP', 'hard-part/structure', r == [want], 'hard part f^((p^4-p^2+1)/N) as the fixed product of Frobenius powers and the three exponentiations', f.loc(), {'got': r})
+    for q, k, what in (('<impl points::TwistPoint>::point_pi1', 1, 'pi(Q): conjugated coordinates, Z scaled by alpha'), ('<impl points::TwistPoint>::point_neg_pi2', 2, '-pi^2(Q): y negated, Z scaled by alpha^2')):
+        f, r = ret1(q)
+        if f:
+            lits = [int(x, 16) for x in re.findall(r'arr:(0x[0-9a-f]+)', r[0])] if r else []
+            cx.add('K-SM9-FROB', last(q) + '/const', lits == [s.mont(s.alpha[k])], '%s: constant equals mont(alpha^%d)' % (what, k), f.loc())
+    f, r = ret1('<impl points::TwistPoint>::point_pi1')
+    if f:
+        cx.add('K-SM9-FROB', 'point_pi1/shape', bool(r) and r[0].startswith('TwistPoint::TwistPoint{conjugate($self.x), conjugate($self.y), fp_mul_fp(conjugate($self.z), arr:'), 'pi(Q) = (conj X, conj Y, alpha * conj Z)', f.loc())
+    f, r = ret1('<impl points::TwistPoint>::point_neg_pi2')
+    if f:
+        cx.add('K-SM9-FROB', 'point_neg_pi2/shape', bool(r) and r[0].startswith('TwistPoint::TwistPoint{$self.x, fp_neg($self.y), fp_mul_fp($self.z, arr:'), '-pi^2(Q) = (X, -Y, alpha^2 * Z)', f.loc())
